@@ -12,6 +12,10 @@ C36 driver.  Case lines (documents in the canonical one-token encoding of harnes
                                  a patch made of valid edits must be accepted, and an accepted candidate must
                                  agree with `merge T P` on every leaf (members the merged document lacks or holds
                                  as a zero value may be defaulted by the decoder).
+  seq <exp> <E> <P> <X> <R>\t<code>   a history of merge patches sent to ONE ConfigHandler: each is judged against the
+                                 configuration in effect before it (E): the handler's code and the effective
+                                 configuration afterwards (R) must be those of a stateless evaluation (exp, X), and an
+                                 accepted patch must give `merge E P` on every leaf
   eff <E> <P> <R|->\t<acc|rej>    E = json.Marshal(effective configuration) (not canonicalConfigJSON), P = {} or a
                                  Lite-routes patch, R = json.Marshal(candidate): R must agree with `merge E P`
                                  on every leaf — the patch target is the effective configuration
@@ -111,6 +115,18 @@ def step (c : Case) : String × String :=
       else if c.impl = "rej" then (if exp = "a" then "viol:valid-patch-rejected" else "ok")
       else "viol:" ++ c.impl
     (model, verdict)
+  | "seq", [exp, es, ps, xs, rs] =>
+    -- one request of a history of merge patches on ONE handler: it must be answered from the configuration
+    -- in effect (E), independently of earlier patches that were merged and then refused
+    let verdict :=
+      if c.impl ≠ exp then "viol:patch-history-dependent"
+      else match parseDoc es, parseDoc ps, parseDoc xs, parseDoc rs with
+        | some e, some p, some x, some r =>
+          if showJ r ≠ showJ x then "viol:patch-history-dependent"
+          else if exp = "ok" && !leafAgree (merge e p) r then "viol:patched-config-differs"
+          else "ok"
+        | _, _, _, _ => "viol:patch-history-dependent"
+    (exp, verdict)
   | "eff", [es, ps, rs] =>
     -- the merge-patch target must be the EFFECTIVE configuration: E is the effective configuration encoded
     -- independently of canonicalConfigJSON; an accepted candidate R must agree with `merge E P` on every leaf
